@@ -26,6 +26,77 @@ JR = "s4lib::readers::journalreader::JournalReader"
 FORBIDDEN = ("sd_journal_previous", "sd_journal_seek_tail", "sd_journal_next_skip", "sd_journal_previous_skip", "sd_journal_seek_cursor", "sd_journal_seek_monotonic_usec")
 
 
+def r911(prog, rep, R911):
+    """R9.11 (also lifted by C01 R1.6): the DateTime stored in a rendered entry derives from the receive time only"""
+    memo911 = {}
+
+    def _params_used(path_, depth_=0):
+        if path_ in memo911:
+            return memo911[path_]
+        memo911[path_] = None   # recursion guard: unknown
+        cb_ = prog.body(path_, required=False)
+        if cb_ is None or depth_ > 4:
+            return None
+        used_ = set()
+        for o_ in _roots(cb_, ["cp", [0]], depth_ + 1):
+            if o_[0] == "arg":
+                used_.add(o_[1])
+        memo911[path_] = used_
+        return used_
+
+    def _roots(b_, op_, depth_=0, seen_=None):
+        """terminal origins of an operand, following calls into the arguments their result derives from"""
+        out_ = set()
+        seen_ = seen_ if seen_ is not None else set()
+        for o_ in b_.origins(op_):
+            if o_[0] != "call":
+                out_.add(o_)
+                continue
+            key_ = (b_.path, o_[1])
+            if key_ in seen_:
+                continue
+            seen_.add(key_)
+            cc_ = [z_ for z_ in b_.calls if z_.bb == o_[1]][0]
+            used_ = _params_used(cc_.d, depth_) if (cc_.d.startswith("s4lib::") or cc_.d.startswith("s4::")) else None
+            out_.add(("via", cc_.d.split("::")[-1]))
+            for i_, a_ in enumerate(cc_.args):
+                if used_ is not None and (i_ + 1) not in used_:
+                    continue
+                if a_[0] == "k":
+                    continue
+                aty_ = (b_.local_ty(a_[1][0]) or "").replace("std::option::", "")
+                if "Option<u64>" in aty_:
+                    out_.add(("opt", cc_.d.split("::")[-1], i_))
+                out_ |= _roots(b_, a_, depth_, seen_)
+        return out_
+    n911 = 0
+    for rb_ in prog.bodies():
+        if not rb_.path.startswith(JR + "::next_") or "{closure" in rb_.path:
+            continue
+        for c in rb_.live_calls():
+            if "journal::JournalEntry::" not in c.d:
+                continue
+            for i_, a_ in enumerate(c.args):
+                if a_[0] not in ("cp", "mv") or "chrono::DateTime<" not in (rb_.local_ty(a_[1][0]) or ""):
+                    continue
+                n911 += 1
+                rs_ = _roots(rb_, a_)
+                tys_ = set()
+                for o_ in rs_:
+                    if o_[0] in ("arg", "local"):
+                        tys_.add((rb_.local_name(o_[1]) or "_%d" % o_[1], rb_.local_ty(o_[1]) or ""))
+                via_ = sorted(o_[1] for o_ in rs_ if o_[0] == "via")
+                opt_ = sorted(n_ for n_, t_ in tys_ if "Option<u64>" in t_.replace("std::option::", "")) + [v_ for v_ in via_ if "source_realtime" in v_ and "or_source" not in v_] \
+                    + sorted("an Option<u64> handed to %s()" % o_[1] for o_ in rs_ if o_[0] == "opt")
+                rep.examined(R911, "%s|%s" % (rb_.path, c.d.split("::")[-1]), sample={"renderer": rb_.path.split("::")[-1], "constructor": c.d.split("::")[-1], "datetime_derives_from": sorted("%s: %s" % x_ for x_ in tys_)[:6], "through": via_[:6]})
+                if opt_:
+                    rep.violation(R911, "%s|%s|entry-instant" % (rb_.path, c.d.split("::")[-1]), "%s: the DateTime stored in the entry (argument %d of JournalEntry::%s) derives from %s, i.e. from the optional _SOURCE_REALTIME_TIMESTAMP; "
+                                  "the entry's instant (merge with other sources, window, summary) must be the journal receive time for every rendering, as DT_USES_SOURCE_OVERRIDE states" % (rb_.path.split("::")[-1], i_, c.d.split("::")[-1], opt_))
+    if n911 < 3:
+        raise CheckerError("R9.11: only %d DateTime arguments of JournalEntry constructors found in the renderers" % n911)
+
+
+
 def run(prog, rep, tier):
     facts = prog.facts
     R91 = rep.rule("R9.1", "entry instant is the journal receive time; bounds converted as instants")
@@ -457,6 +528,16 @@ def run(prog, rep, tier):
                     rep.examined(R910, "%s|%s" % (rid_, k_), sample={"rule": rid_, "instance": k_})
     if n910 < 2:
         raise CheckerError("R9.10: only %d journal instances among the lifted rules" % n910)
+
+    # ------------------------------------------------------------ R9.11 the instant stored in every rendered entry is the journal receive time
+    # R9.1 decides the time the *window* is tested with.  The merge with other sources, the summary and
+    # the prepended datetime use the DateTime each renderer stores in the JournalEntry it builds.  That
+    # value must derive from the entry's receive time (the u64 realtime value handed to the renderer)
+    # and from nothing that carries the optional _SOURCE_REALTIME_TIMESTAMP: helpers are followed into
+    # their bodies (constant edges pruned, so the project-wide choice DT_USES_SOURCE_OVERRIDE is
+    # honoured) and only the parameters their result really derives from are traced on.
+    R911 = rep.rule("R9.11", "the DateTime stored in a rendered entry derives from the receive time only (all renderers)")
+    r911(prog, rep, R911)
 
     return rep.finish(
         "Static necessary-condition check of the journal reader: the entry instant is the journal receive time (constant override; the window "
